@@ -270,6 +270,8 @@ def gen_locate_freud(g, rng, d, parts_list, thorough, expected):
 
 def rand_matrix(rng, d, cls):
     while True:
+        if cls == "id":
+            return [[Fraction(1 if i == j else 0) for j in range(d)] for i in range(d)]
         if cls == "diag":
             M = [[Fraction(0)] * d for _ in range(d)]
             for i in range(d):
@@ -310,7 +312,7 @@ def gen_affine(g, rng, d, parts_list, kind, cls, expected, thorough):
     if len(pl) > (80 if thorough else 40):
         pl = rng.sample(pl, 80 if thorough else 40)
     for ps in pl:
-        unstable = cls != "diag" and len(ps[-1]) > 1
+        unstable = cls not in ("diag", "id") and len(ps[-1]) > 1
         scale = rng.choice((Fraction(1), Fraction(2), Fraction(1, 2), Fraction(4)))
         v = rand_vertex(rng, d)
         x = point_in(rng, v, ps, rng.choice((3, 4, 5)), rng.choice(("rand", "tight", "edge")))
@@ -396,7 +398,7 @@ def generate(rng, tier):
         gen_pairs(g, rng, d, star, None if (d <= 3 or thorough) else 20000)
         gen_locate_freud(g, rng, d, cp, thorough, expected)
         gen_freud_coords(g, rng, d, cp, expected)
-        for kind, cls in (("affine", "diag"), ("affine", "int"), ("affine", "dyadic"), ("chg", "int"), ("matrix", "int"), ("chg", "diag")):
+        for kind, cls in (("affine", "diag"), ("affine", "int"), ("affine", "dyadic"), ("chg", "int"), ("matrix", "int"), ("chg", "diag"), ("offs", "id")):
             gen_affine(g, rng, d, cp, kind, cls, expected, thorough)
         gen_coxeter(g, rng, d, cp, expected, thorough)
     # beyond the range of the bounded theorems: ambient dimension 5 (complete in the thorough tier), samples in 6
